@@ -17,6 +17,7 @@ func buildProperties() []Property {
 			Rules: []RuleDef{
 				{"R-ESCAPE-TABLES", 12, ruleEscapeTables},
 				{"R-FLOAT-TEXT", 2, ruleFloatText},
+				{"R-TEXT-RUNE", 8, ruleTextRune},
 				{"R-OPS-SOURCE", 4, ruleOpsSource},
 			},
 		},
